@@ -171,6 +171,26 @@ def print_assumptions(pid, relpath, tag=None):
         shutil.rmtree(d, ignore_errors=True)
 
 
+
+def coqchk(relpath, timeout=1800):
+    """Independent re-check of the compiled property file and everything it depends on (`coqchk -o`).
+    Returns dict(ok, axioms, summary).  Used by the thorough tier."""
+    mod = 'TV.' + relpath[:-2].replace('/', '.')
+    r = subprocess.run(['timeout', str(timeout), 'coqchk', '-silent', '-o', '-Q', COQ, 'TV', mod],
+                       capture_output=True, text=True, cwd=COQ)
+    out = r.stdout + r.stderr
+    m = re.search(r'CONTEXT SUMMARY(.*)', out, flags=re.S)
+    summ = m.group(1) if m else out[-2000:]
+    ax = []
+    m2 = re.search(r'\* Axioms:(.*?)\n\s*\n\* Constants', summ, flags=re.S)
+    if m2 and '<none>' not in m2.group(1):
+        ax = [l.strip() for l in m2.group(1).splitlines() if l.strip()]
+    bad_ax = [a for a in ax if not any(a.endswith(x) or a.endswith(x.split('.')[-1]) for x in ALLOWED_AXIOMS)]
+    unsafe = [k for k in ('type-in-type', 'unsafe (co)fixpoints', 'positivity is assumed')
+              if re.search(re.escape(k) + r':\s*(?!<none>)\S', summ)]
+    ok = (r.returncode == 0) and not bad_ax and not unsafe and m is not None
+    return dict(ok=ok, rc=r.returncode, axioms=ax, not_allowed=bad_ax, unsafe=unsafe, summary=summ.strip()[:3000])
+
 # ----------------------------------------------------------------------------
 # Evaluating the model: cases_*.v + vm_compute
 # ----------------------------------------------------------------------------
